@@ -44,7 +44,8 @@ PROPS = ["C04_dim_is_shape", "C04_xls_sheet_dim", "C04_bytes_stream", "C04_metad
          "C04_props_unchanged_epub_refuted", "C04_props_unchanged_html_meta",
          "C04_props_unchanged_rtf", "C04_props_unchanged_rtf_refuted", "C04_rtf_simple_utf8able", "C04_rtf_simple_utf8able_refuted",
          "C04_rtf_simple_raises_only_digits", "C04_rtf_simple_total_refuted", "C04_props_summary_ole", "C04_xls_summary_total",
-         "C04_xls_summary_total_refuted", "C04_props_unchanged_xlsx", "C04_archive_member_metadata"]
+         "C04_xls_summary_total_refuted", "C04_props_unchanged_xlsx", "C04_archive_member_metadata",
+         "C04_image_metadata_views_agree"]
 INST = ["C04_odf_overflow_unguarded", "C04_rtf_tables_wf", "C04_rtf_surrogate_unrepaired",
         "C04_rtf_ctypes_wf", "C04_image_decls", "C04_archive_member_path"]
 INST_FIXED = ["C04_odf_guarded", "C04_odf_overflow_witness", "C04_rtf_repaired", "C04_rtf_surrogate_witness", "C04_path_guarded",
@@ -269,7 +270,7 @@ def gen_tables(ctx):
                 spaces=spaces, decimals=decimals)
 
 
-PRE = ("From S2T Require Import Lib.PyStr C04.Model C04.ModelFloat C04.ModelPath C04.ModelRtf C04.ModelMeta C04.ModelRtfText C04.ModelSummary C04.Corr "
+PRE = ("From S2T Require Import Lib.PyStr C04.Model C04.ModelFloat C04.ModelPath C04.ModelRtf C04.ModelMeta C04.ModelRtfText C04.ModelSummary C04.ModelImeta C04.Corr "
        "Gen.C04Tables.\nFrom Coq Require Import List NArith ZArith.\nImport ListNotations.\nOpen Scope N_scope.\n")
 
 
@@ -320,10 +321,10 @@ def odf_cases(ctx, tb):
         if c not in seen:
             seen.add(c)
             out.append(c)
-    if ctx.tier == "quick" and len(out) > 1500:
+    if ctx.tier == "quick" and len(out) > 900:
         head, rest = out[:300], out[300:]
         rng.shuffle(rest)
-        out = head + rest[:1200]
+        out = head + rest[:600]
     return out
 
 
@@ -567,6 +568,80 @@ def memo_obligation(ctx):
     ctx.obligation("ast:data_types.py has no file-system/cwd-dependent memoisation (cached functions: %s)" % (", ".join(listed) or "none"),
                    not bad, "; ".join(bad))
     return bad
+
+
+def inventory_obligation(ctx):
+    """Fail closed when data_types.py grows an image / table class the models do not know, or when an image class stops
+    defining one of the five interface accessors itself."""
+    from sharepoint2text.parsing.extractors import data_types as dt
+    classes = {n: c for n, c in vars(dt).items() if isinstance(c, type) and c.__module__ == dt.__name__ and not getattr(c, "_is_protocol", False)}
+    imgs = sorted(n for n, c in classes.items() if "get_bytes" in vars(c))
+    tabs = sorted(n for n, c in classes.items() if "get_dim" in vars(c))
+    results = sorted(n for n, c in classes.items() if "iterate_units" in vars(c) and "get_full_text" in vars(c))
+    want_t = sorted(["TableData", "XlsxSheet", "OdsSheet", "OdtTable", "RtfTable", "XlsSheet"])
+    missing = [f"{n}.{a}" for n in imgs for a in ("get_bytes", "get_content_type", "get_caption", "get_description", "get_metadata")
+               if a not in vars(classes[n])]
+    ok = imgs == sorted(IMG_CLASSES) and tabs == want_t and not missing
+    ctx.extra["inventory"] = {"image_classes": imgs, "table_classes": tabs, "result_classes": results}
+    ctx.obligation("inventory:image and table classes of data_types.py are exactly the modelled ones", ok,
+                   f"image classes {imgs} vs modelled {sorted(IMG_CLASSES)}; table classes {tabs} vs modelled {want_t}; "
+                   f"accessors not defined by the class itself: {missing}")
+
+
+def run_imeta(ctx, tb):
+    """ImageMetadata under random sequences of attribute / item / alias assignments vs the model."""
+    from sharepoint2text.parsing.extractors.data_types import ImageMetadata
+    rng = ctx.rng
+    fields = ["unit_number", "image_number", "content_type", "width", "height"]
+    fcoq = dict(zip(fields, ["FUnit", "FNum", "FCtype", "FWidth", "FHeight"]))
+    vals = [None, 0, 1, -3, 7, 2 ** 40, "", "image/png", "x y", "\u00fc"]
+
+    def mv(v):
+        if v is None:
+            return "(MOptZ None)"
+        if isinstance(v, int):
+            return f"(MZ {Zs(v)})"
+        return f"(MStr {cstr(v)})"
+    terms, infos = [], []
+    for k in range(ctx.n(250, 2500)):
+        init = [rng.choice(vals) for _ in fields]
+        md = ImageMetadata(**dict(zip(fields, init)))
+        ops, log = [], []
+        for _ in range(rng.randint(0, 7)):
+            kind = rng.choice(["attr", "attr", "item", "item", "other", "uidx", "iidx"])
+            v = rng.choice(vals)
+            if kind == "attr":
+                f = rng.choice(fields)
+                setattr(md, f, v)
+                ops.append(f"(OSetAttr {fcoq[f]} {mv(v)})")
+            elif kind == "item":
+                key = rng.choice(fields + ["extra", "caption", "unit_index", ""])
+                md[key] = v
+                ops.append(f"(OSetItem {cstr(key)} {mv(v)})")
+            elif kind == "other":
+                object.__setattr__(md, "_c04_probe", v) if False else setattr(md, "note", v)
+                ops.append(f"(OSetOtherAttr {mv(v)})")
+            elif kind == "uidx":
+                md.unit_index = v
+                ops.append(f"(OSetUnitIndex {mv(v)})")
+            else:
+                md.image_index = v
+                ops.append(f"(OSetImageIndex {mv(v)})")
+            log.append((kind, v))
+        # property oracle: both views agree on every dataclass field, aliases read the fields
+        for f in fields:
+            if dict.get(md, f, "<missing>") != getattr(md, f) or type(dict.get(md, f)) is not type(getattr(md, f)):
+                ctx.finding("metadata-dict-view-differs:ImageMetadata", f"after {log!r:.200} item {f} = {dict.get(md, f)!r} but attribute = {getattr(md, f)!r}",
+                            {"init": init, "ops": log})
+        if md.unit_index != md.unit_number or md.image_index != md.image_number:
+            ctx.finding("metadata-alias-differs:ImageMetadata", f"unit_index/image_index differ from unit_number/image_number after {log!r:.200}", {"init": init, "ops": log})
+        ctx.case(("imeta", tuple(init), tuple(log)), bool(log), kind="imeta:ops")
+        fin = pair(*[mv(getattr(md, f)) for f in fields])
+        items = coq_list([pair(cstr(k_), mv(v_)) for k_, v_ in dict.items(md)])
+        terms.append(pair(pair(*[mv(v) for v in init]), coq_list(ops), fin, items))
+        infos.append((init, log))
+    corr(ctx, "image_metadata_mutation", "imeta_case", terms, infos,
+         "(mval * mval * mval * mval * mval) * list iop * (mval * mval * mval * mval * mval) * list (str * mval)", shard=400)
 
 
 def run_paths(ctx, tb):
@@ -858,6 +933,7 @@ def exercise(ctx, r, origin, path_arg, replay, utf8_key=None, check_size=True, s
         nonlocal n_acc
         n_acc += 1
         acc = f"{type(obj).__name__}.{name}"
+        ctx.extra.setdefault("_acc_by_origin", {}).setdefault("instance" if origin.startswith("instance:") else "extracted", set()).add(acc)
         try:
             v = getattr(obj, name)(*a)
             if isinstance(v, types.GeneratorType) or (hasattr(v, "__next__") and not isinstance(v, io.IOBase)):
@@ -1116,6 +1192,48 @@ def run_label_docs(ctx, s2t, res):
                           "the label; a heading and a paragraph mentioning the label appended", "call": reader.__name__})
 
 
+def run_doc_captions(ctx, s2t, res):
+    """A real .doc (fixture headings.doc: headings + one picture) whose body line is overwritten in place (same-size
+    surgery on the WordDocument stream, tools/props/c08_writers.ole_patch) by a SEQ caption line carrying a hostile label:
+    the label becomes DocImage.caption in the real extractor and meets the heading-based unit assembly."""
+    try:
+        from props.c08_writers import ole_patch, ole_read_stream
+    except Exception as e:  # noqa
+        ctx.obligation("generator:doc-captions (CFB surgery helper importable)", False, repr(e))
+        return
+    src = res / "legacy_ms" / "headings.doc"
+    if not src.exists():
+        ctx.obligation("generator:doc-captions (fixture headings.doc present)", False, "fixture missing")
+        return
+    data = src.read_bytes()
+    line = "This is a subsection in chapter 1"
+    wd = ole_read_stream(data, "WordDocument")
+    off = wd.find(line.encode("utf-16-le"))
+    reached = 0
+    if off >= 0:
+        for label in HOSTILE_LABELS:
+            head = "SEQ F \\*A "
+            if len(head) + len(label) > len(line) or any(c in label for c in "\x00\n\r") or label != label.strip():
+                continue
+            new = (head + label).ljust(len(line))
+            try:
+                d2 = ole_patch(data, "WordDocument", [(off, new.encode("utf-16-le"))])
+                results = list(s2t.read_doc(io.BytesIO(d2), path=None))
+            except Exception:  # noqa
+                ctx.count("hostile:rejected")
+                continue
+            for r in results:
+                caps = [getattr(i, "caption", None) for i in getattr(r, "images", [])]
+                if label in caps:
+                    reached += 1
+                exercise(ctx, r, "hostile-doc-caption:headings.doc", None,
+                         {"base_file": "legacy_ms/headings.doc", "caption_label": label,
+                          "how": f"WordDocument stream: the UTF-16 text {line!r} overwritten by {new!r}", "call": "read_doc"})
+    ctx.extra["doc_captions_reaching_extractor"] = reached
+    ctx.obligation("generator:doc-captions reach DocImage.caption through the real DOC extractor", reached >= 5,
+                   f"only {reached} hostile labels arrived as captions (text offset {off})")
+
+
 def run_archives(ctx, s2t, res):
     """Generated ZIP / TAR / TAR.GZ archives whose member names come from a hostile grammar (relative, ./, nested, //,
     ABSOLUTE, unicode, spaces, '!' inside) x archive path arguments: the metadata of every member result is that of the
@@ -1129,12 +1247,21 @@ def run_archives(ctx, s2t, res):
               "\u00fcber/b\u00fcndel.zip", "a b/c d.zip", "outer.zip!/inner.zip"]
     rng = ctx.rng
     cterms, cinfos = [], []
-    for kind in ("zip", "tar", "tar.gz"):
+    import sys as _sys
+    if "/verif/tools" not in _sys.path:
+        _sys.path.insert(0, "/verif/tools")
+    from sevenz_min import write_7z
+    for kind in ("zip", "tar", "tar.gz", "7z"):
         names = members if ctx.tier == "thorough" else rng.sample(members, 9) + ["/srv-c04/reports/summary.txt", "notes/readme.txt"]
         names = list(dict.fromkeys(names))
+        if kind == "7z":
+            # the 7z reader refuses a whole archive that lists an absolute member name (confinement rule, C09's property)
+            names = [n for n in names if not n.startswith("/")]
         payload = {n: f"member-{i}-{kind} unique text" for i, n in enumerate(names)}
         buf = io.BytesIO()
-        if kind == "zip":
+        if kind == "7z":
+            buf.write(write_7z([(n, payload[n].encode()) for n in names], solid=False))
+        elif kind == "zip":
             with zipfile.ZipFile(buf, "w", zipfile.ZIP_DEFLATED) as z:
                 for n in names:
                     z.writestr(zipfile.ZipInfo(n), payload[n])
@@ -1190,6 +1317,7 @@ def run_hostile_docs(ctx):
     import sharepoint2text as s2t
     res = common.REPO / "sharepoint2text" / "tests" / "resources"
     run_label_docs(ctx, s2t, res)
+    run_doc_captions(ctx, s2t, res)
     cterms, cinfos = run_archives(ctx, s2t, res)
     corr(ctx, "archive_member_path", "(path_case path_guard)", cterms, cinfos,
          "option str * list (str * (option bool * str)) * option (option str * option str * option str * option str)")
@@ -1895,15 +2023,16 @@ def run(ctx):
     ctx.assumptions += ["POSIX pathlib of CPython 3.12; streams held by images are open; IEEE-754 binary64 floats"]
     tb = gen_tables(ctx)
     memo_obligation(ctx)
+    inventory_obligation(ctx)
     import time as _t
     _t0 = _t.time()
-    ctx.prove("C04/Props.v", ["C04/Proofs.vo", "C04/ProofsPath.vo", "C04/ProofsRtf.vo", "C04/ProofsMeta.vo", "C04/ProofsRtfText.vo", "C04/ModelSummary.vo"], expected=PROPS)
+    ctx.prove("C04/Props.v", ["C04/Proofs.vo", "C04/ProofsPath.vo", "C04/ProofsRtf.vo", "C04/ProofsMeta.vo", "C04/ProofsRtfText.vo", "C04/ModelSummary.vo", "C04/ProofsImeta.vo"], expected=PROPS)
     ctx.prove("C04/Inst.v", ["Gen/C04Tables.vo", "C04/Corr.vo", "C04/ProofsRtf.vo"], expected=INST)
     ctx.prove("C04/InstFixed.v", ["C04/Inst.vo"], expected=INST_FIXED)
     ctx.extra["prove_s"] = round(_t.time() - _t0, 1)
     import time
     stage = {}
-    for fn in (run_odf, run_paths, run_rtf, run_rtf_text, run_meta, run_summary, run_instances):
+    for fn in (run_odf, run_paths, run_rtf, run_rtf_text, run_meta, run_summary, run_imeta, run_instances):
         t0 = time.time()
         fn(ctx, tb)
         stage[fn.__name__] = round(time.time() - t0, 1)
@@ -1912,6 +2041,10 @@ def run(ctx):
         fn(ctx)
         stage[fn.__name__] = round(time.time() - t0, 1)
     ctx.extra["stage_s"] = stage
+    cov = ctx.extra.pop("_acc_by_origin", {})
+    only_inst = sorted(cov.get("instance", set()) - cov.get("extracted", set()))
+    ctx.extra["accessors_exercised_on_extracted_results"] = len(cov.get("extracted", set()))
+    ctx.extra["accessor_families_only_on_type_directed_instances"] = only_inst
 
 
 META = {
@@ -1927,6 +2060,10 @@ META = {
                   "(refuted before; partial theorem for inputs without \\u escapes); document properties reach the metadata object unchanged "
                   "for core.xml/meta.xml/HTML meta (EPUB: stripped — refuted, partial). Validated only: the same contract for results "
                   "of all extractors on fixtures, mutated-but-accepted inputs and hostile documents.",
-    "level_note": "Trusted: Coq kernel+VM; SpecFloat as IEEE semantics; the hand-written models (validated differentially); the ast "
+    "level_note": "Outside the model, stated: the meaning of a code page (bytes.decode) and of UTF-8/UTF-16 codecs, ElementTree/html.parser, "
+                  "olefile/openpyxl records, the regex engine's choice of the info-group capture, pathlib on non-POSIX systems, image "
+                  "sniffers of util/image_utils.py (C14's), HTML <title> assembly (_get_node_text, C02's walker), 7z archives with absolute "
+                  "member names (rejected as a whole by the reader: C09), XLSX `subject` (no field in XlsxMetadata). "
+                  "Trusted: Coq kernel+VM; SpecFloat as IEEE semantics; the hand-written models (validated differentially); the ast "
                   "translator of the unit branches; str predicates, file system, XML/HTML parsers and codecs are oracles.",
 }
